@@ -249,6 +249,9 @@ GetVec(p, api, k, o) ==
                 THEN dflt' = [dflt EXCEPT ![p][Target(p).sol].vec[k] = o.v]
                 ELSE o.v = VecVal(p, Target(p), k) /\ UNCHANGED dflt
         ELSE /\ Complains(o) /\ o.ret = 1 /\ UNCHANGED dflt
+             \* C++: the caller's vector is left untouched (the driver pre-fills 3 elements);
+             \* C: the wrapper hands back the untouched empty vector, i.e. length 0 (C17)
+             /\ o.n = IF api = "c" THEN 0 ELSE 3
      /\ UNCHANGED <<reg, sel, live, status, memo>>
 
 \* masa_display_param: one line per scalar parameter; "Uninitialized" exactly for the marker
